@@ -225,7 +225,7 @@ func c06PP(r *core.Run, c *c06Case) {
 
 func runC06(r *core.Run) {
 	r.Rule("the same bytes/options/files executed R times: (a) dumps whose buckets TIE under the ordering (same frames, different non-pointer values or creators, equal sizes), 2..8 buckets, 0..5 distinct pointers, in-process R runs with unrelated calls in between, comparing snapshot, the four aggregations in order with merged signatures, and both HTML documents (creation time masked); " +
-		"(b) G-SNAP universe samples; (c) file-system layouts with nested modules and overlapping GOPATH roots under GuessPaths; (d) the pp binary, R fresh processes per input, byte comparison. " +
+		"(b) G-SNAP universe samples; (c) file-system layouts with nested modules and overlapping GOPATH roots under GuessPaths; (d) the pp binary, R fresh processes per input, byte comparison; (e) history: a snapshot rendered after another one that names the same files and lines but resolved them differently gets the document it gets when rendered alone. " +
 		"each repetition samples fresh map-iteration orders. distinct by hash(input); non-trivial = >= 2 buckets at the default level")
 	r.Assume("Go randomises every range over a map, so each repetition is a new schedule of the map iterations")
 	reps := r.N(30, 200)
@@ -275,6 +275,7 @@ func runC06(r *core.Run) {
 		c06PP(r, &c06Case{Kind: "pp", Input: d.Render(), Args: args, Reps: r.N(10, 40)})
 		r.Distinct(core.Hash64(d.Render()) ^ uint64(i%4))
 	})
+	c06History(r)
 }
 
 func replayC06(r *core.Run, kind string, raw json.RawMessage) {
